@@ -38,19 +38,23 @@ def packages(draw: Any) -> dict:
     pk = gen.pkg_name(draw(st.integers(0, 99)))
     impl: list[dict] = []
     pub: list[dict] = []
+    other: list[dict] = []
     inits: list[list] = []
     # private bases inherited by several public subclasses
     for _ in range(draw(st.integers(1, 2))):
         base = "_" + namer.fresh("Base")
         methods = []
         for _ in range(draw(st.integers(1, 3))):
-            params = [gt.param(namer.fresh("p"), "pos", draw(st.sampled_from(LIT_TYPES)), None) for _ in range(draw(st.integers(1, 2)))]
+            ptypes = [*LIT_TYPES, ["ext", "decimal", "Decimal"], ["cls", f"{pk}.shapes:Shape"], ["list", ["ext", "fractions", "Fraction"]]]
+            params = [gt.param(namer.fresh("p"), "pos", draw(st.sampled_from(ptypes)), None) for _ in range(draw(st.integers(1, 2)))]
             if draw(st.booleans()):
                 params.append(gt.param(namer.fresh("args"), "vararg", draw(st.sampled_from([["int"], ["tuple", [["int"], ["str"]]], None])), None))
             methods.append(gt.func(namer.fresh("inh"), params, ret=draw(st.sampled_from(LIT_TYPES)), kind="method"))
         pub.append(gt.klass(base, methods))
         for _ in range(draw(st.integers(2, 3))):
-            pub.append(gt.klass(namer.fresh("Sub"), [gt.func(namer.fresh("own"), [], ret=["int"], kind="method")], bases=[["cls", f"{pk}.pubmod:{base}"]]))
+            sub = gt.klass(namer.fresh("Sub"), [gt.func(namer.fresh("own"), [], ret=["int"], kind="method")], bases=[["cls", f"{pk}.pubmod:{base}"]])
+            # subclasses of one private base may live in different modules
+            (other if draw(st.booleans()) else pub).append(sub)
     # declarations of a private module re-exported with and without alias
     for _ in range(draw(st.integers(1, 3))):
         if draw(st.booleans()):
@@ -63,7 +67,10 @@ def packages(draw: Any) -> dict:
         inits.append(["from", "._impl", nm, alias])
     for _ in range(draw(st.integers(1, 3))):
         pub.append(gt.func(namer.fresh("fn"), [gt.param(namer.fresh("a"), "pos", draw(st.sampled_from(LIT_TYPES)), None), gt.param(namer.fresh("va"), "vararg", draw(st.sampled_from([["int"], None])), None)], ret=draw(st.sampled_from([["ext", "fractions", "Fraction"], *LIT_TYPES]))))
-    return gt.package(pk, [gt.module([pk, "pubmod"], pub), gt.module([pk, "_impl"], impl)], {pk: inits})
+    mods = [gt.module([pk, "pubmod"], pub), gt.module([pk, "_impl"], impl), gt.module([pk, "shapes"], [gt.klass("Shape", [gt.attr("sides", ["int"], None)])])]
+    if other:
+        mods.append(gt.module([pk, "othermod"], other))
+    return gt.package(pk, mods, {pk: inits})
 
 
 STEPS = st.sampled_from(["gen:0", "gen:1", "again:0", "again:1", "serialise"])
